@@ -117,6 +117,77 @@ def r17_4(ctx):
     ctx.run_rule("R17.4", "same priority key in get_route and get_trace; trace runs on the normalised request", body, floor=5)
 
 
+def r17_5(ctx):
+    """The action trace folds the traced rules exactly like the live fold (Action::from_routes_rule):
+    same per-rule table (reset => take, else merge, stop => last step), one step recorded per rule
+    after its contribution, and an order that is rank-descending like the rule order used by the
+    live fold (priority = -rank, ascending)."""
+    F = ctx.facts
+    from .c05 import fold_semantics, FOLD_REF
+
+    def body(r):
+        f = F.fn("action::trace::TraceAction::from_trace_rules")
+        g = F.fn("action::Action::from_routes_rule")
+        r.analysed(f, g)
+        rows_t, lp_t = fold_semantics(f)
+        rows_a, lp_a = fold_semantics(g)
+        if rows_t is None or rows_a is None:
+            r.ob("fold-agreement:extract", False, f.site, "cannot extract the per-rule table of %s" % ("from_trace_rules" if rows_t is None else "from_routes_rule"))
+            return
+
+        def expand(rows):
+            out = {}
+            for (pr, rs, st), v in rows.items():
+                for a in ([pr] if pr is not None else [True, False]):
+                    for b in ([rs] if rs is not None else [True, False]):
+                        for c in ([st] if st is not None else [True, False]):
+                            out.setdefault((a, b, c), set()).add(v)
+            return out
+        et, ea = expand(rows_t), expand(rows_a)
+        bad = []
+        for k in sorted(FOLD_REF):
+            if et.get(k) != ea.get(k) or et.get(k) != {FOLD_REF[k]}:
+                bad.append("produced=%s reset=%s stop=%s: trace %s, live fold %s" % (k + (sorted(et.get(k, ())), sorted(ea.get(k, ())))))
+        for k, v in et.items():
+            if not k[0] and any(eff != "none" for eff, _ in v):
+                bad.append("a rule that produced no action changes the traced action")
+        r.ob("fold-agreement:table", not bad, f.loc(lp_t.line), "from_trace_rules and from_routes_rule apply reset / merge / stop identically (4 rows)" if not bad else "; ".join(bad[:3]))
+        # one step is recorded per rule, after its contribution and before a stop return
+        s = Sym(f, copies=True)
+        okp = True
+        n = 0
+        for p in lp_t.iteration_paths(s):
+            n += 1
+            idx_push = [i for i, e in enumerate(p.events) if e[0] == "call" and e[1] == "std::vec::Vec::push" and mentions(e[2][1], lambda x: x[0] == "agg" and x[1] == "action::trace::TraceAction")]
+            idx_eff = [i for i, e in enumerate(p.events) if (e[0] == "call" and e[1] == "action::Action::merge") or (e[0] in ("set", "init") and mentions(e[3], lambda x: x[0] == "call" and x[1] == "action::Action::from_route_rule") and not mentions(e[3], lambda x: x[0] == "disc"))]
+            if len(idx_push) != 1:
+                okp = False
+            elif any(i > idx_push[0] for i in idx_eff if p.events[i][0] == "call"):
+                okp = False
+        r.ob("fold-agreement:one-step-per-rule", okp and n >= 3, f.loc(lp_t.line), "every iteration records exactly one step, after the rule's contribution (%d paths)" % n)
+        # order: sort_by_key(priority) ascending, priority = 0 - rank, dominates the loop
+        ks = sort_key_of(f)
+        k = ks[0][1] if len(ks) == 1 else None
+        asc = k is not None and k[0] == "call" and k[1] == "router::route::Route::priority"
+        sort_blocks = [bi for bi, tm, cal in f.calls() if cal and cal.name in ("sort_by_key", "sort_by", "sort_unstable_by_key", "sort_by_cached_key", "sort")]
+        dom = len(sort_blocks) == 1 and f.dominates(sort_blocks[0], lp_t.head())
+        r.ob("fold-agreement:order", asc and dom, f.site, "routes are sorted by ascending priority before the fold (key %s)" % (show(k) if k is not None else None))
+        cands = [x for x in F.fn_list if x.name == "into_route" and "api::rule::Rule" in x.key]
+        h = cands[0] if len(cands) == 1 else None
+        okr = False
+        if h is not None:
+            r.analysed(h)
+            pv = Prov(h, copies=True)
+            for bi, tm, cal in h.calls():
+                if cal and cal.key() == "router::route::Route::new":
+                    a = pv.operand(tm["args"][11])
+                    inner = a[2] if a[0] == "field" and a[1][0] == "bin" else a
+                    x = a[1] if (a[0] == "field" and a[1][0] == "bin") else a
+                    okr = x[0] == "bin" and x[1].startswith("Sub") and x[2] == ("const", 0) and mentions_field(x[3], "rank", "api::rule::Rule")
+        r.ob("fold-agreement:priority-is-minus-rank", okr, h.site if h else f.site, "Route priority = 0 - rule.rank, so ascending priority is the descending rank of the live fold's rule order (R11.2)")
+    ctx.run_rule("R17.5", "the action trace folds like the live fold", body, floor=4)
+
+
 def r17_6(ctx, layers):
     F = ctx.facts
 
@@ -292,5 +363,6 @@ def run(ctx):
     r17_2(ctx, layers)
     r17_3(ctx, layers)
     r17_4(ctx)
+    r17_5(ctx)
     r17_6(ctx, layers)
     r17_7(ctx, layers)
